@@ -237,24 +237,45 @@ def json_fields(P, R):
     # the level stored with a node is the node's own level; the reader
     # maps it to a variable by the table written in the header
     mk = P.func('dd._copy._make_node')
-    t = au.src(mk.node).replace(' ', '')
-    if "var=context['var_at_level'][level]" in t:
+    lookups = [n for n in au.walk_no_defs(mk.node)
+               if isinstance(n, ast.Subscript) and isinstance(
+                   n.value, ast.Subscript) and au.is_name(
+                       n.value.value, 'context')]
+    keys = {n.value.slice.value: au.src(n.slice) for n in lookups
+            if isinstance(n.value.slice, ast.Constant)}
+    if keys.get('var_at_level') == 'level':
         R.holds('R-FORMAT', mk.qualname, 'node level -> variable through '
                 'the header table of the same file')
-    else:
+    elif 'level_of_var' in keys and 'var_at_level' not in keys:
         R.violation('R-FORMAT', 'json-fields', mk.qualname, 'level',
-                    'the reader no longer maps the stored level to a '
-                    'variable through the header of the same file',
-                    unit=mk.unit.rel, line=mk.lineno)
-    sl = au.src(rd.node).replace(' ', '')
-    if "context['var_at_level']={v:kfork,vinorder.items()}" in sl:
-        R.holds('R-FORMAT', rd.qualname, 'var_at_level is the inverse of '
-                'level_of_var')
+                    'the stored level of a node is looked up in the '
+                    'name -> level table instead of the level -> name '
+                    'table', unit=mk.unit.rel, line=mk.lineno)
     else:
-        R.violation('R-FORMAT', 'json-fields', rd.qualname,
-                    'var_at_level', 'var_at_level is no longer the '
-                    'inverse of the level_of_var header',
-                    unit=rd.unit.rel, line=rd.lineno)
+        R.undecided('R-FORMAT', mk.qualname, 'level -> variable',
+                    'unrecognised form')
+    inv = None
+    for n in au.walk_no_defs(rd.node):
+        if isinstance(n, ast.Assign) and isinstance(
+                n.targets[0], ast.Subscript) and au.is_name(
+                    n.targets[0].value, 'context') and isinstance(
+                        n.targets[0].slice, ast.Constant) and \
+                n.targets[0].slice.value == 'var_at_level':
+            inv = n.value
+    if isinstance(inv, ast.DictComp) and isinstance(
+            inv.generators[0].target, ast.Tuple):
+        a, b = [au.src(e) for e in inv.generators[0].target.elts]
+        if (au.src(inv.key), au.src(inv.value)) == (b, a):
+            R.holds('R-FORMAT', rd.qualname, 'var_at_level is the inverse '
+                    'of level_of_var')
+        else:
+            R.violation('R-FORMAT', 'json-fields', rd.qualname,
+                        'var_at_level', 'var_at_level is not the inverse '
+                        'of the level_of_var header', unit=rd.unit.rel,
+                        line=rd.lineno)
+    else:
+        R.undecided('R-FORMAT', rd.qualname, 'var_at_level',
+                    'unrecognised form')
 
 
 # ------------------------------------------------------------------ R-BOUND
@@ -396,15 +417,23 @@ def r_dispatch(P, R):
                     unit=f.unit.rel, line=c.lineno)
     # dd.autoref.let converts Function values to nodes, nothing else
     g = P.func('dd.autoref.BDD.let')
-    t = au.src(g.node).replace(' ', '')
-    ok = ('casestr()|bool():' in t or 'casebool()|str():' in t) and \
-        'caseFunction():' in t and 'self._bdd.let(d,u.node)' in t
-    if ok:
+    fwd = [c for c in au.calls_in(g.node, 'let')
+           if au.call_recv(c) == ['self', '_bdd']]
+    node_conv = any(
+        isinstance(n, ast.Attribute) and n.attr == 'node'
+        for c in fwd for n in ast.walk(c))
+    cases = [au.src(c.pattern).replace(' ', '')
+             for m in au.walk_no_defs(g.node) if isinstance(m, ast.Match)
+             for c in m.cases]
+    if fwd and node_conv and any('Function()' in c for c in cases) and \
+            any('str()' in c and 'bool()' in c for c in cases):
         R.holds('R-DISPATCH', g.qualname, 'names and Booleans pass '
                 'through, Functions are converted to nodes')
-    else:
+    elif not fwd:
         R.violation('R-DISPATCH', 'autoref', g.qualname, 'let',
-                    'dd.autoref.BDD.let no longer forwards names/Booleans '
-                    'unchanged and Functions as nodes', unit=g.unit.rel,
+                    'dd.autoref.BDD.let no longer forwards to the let of '
+                    'the underlying manager', unit=g.unit.rel,
                     line=g.lineno)
+    else:
+        R.undecided('R-DISPATCH', g.qualname, 'let', 'unrecognised form')
 r_dispatch.NAME = 'R-DISPATCH'
